@@ -12,6 +12,7 @@ RULE = ("bridge_credit: L1 claim histories on the real keepers (ValidateBasic + 
         "supply before/after are judged by Spec.C06.creditStep; a per-prophecy ledger of observed credits by Spec.C06.ledgerOK. "
         "non-trivial = distinct accepted message, or a chk line around a balance change")
 TRUSTED_BASE = [
+    "a restart from the exported genesis is the identity on the model state (Step.restart); that the real export/import carries the bridge state is tied by the correspondence only (chk carry on every generated restart)",
     "Lean 4.33.0 kernel; axioms propext, Classical.choice, Quot.sound (audited per theorem on every run)",
     "hand-written Lean model of x/oracle, x/ethbridge and the used part of x/bank (mint / send / blocked recipients / 256-bit overflow panic / "
     "zero coins dropped / denomination regex), tied by regenerated facts (the guard of the only ProcessSuccessfulClaim call, PeggedCoinPrefix) and "
